@@ -6,6 +6,7 @@ import (
 	"flag"
 	"fmt"
 	"os"
+	"time"
 
 	"verif/sim/engine"
 )
@@ -39,6 +40,7 @@ func cmdRun(args []string) {
 	v := fs.Bool("v", false, "verbose")
 	tier := fs.String("tier", "quick", "tier")
 	tr := fs.Bool("trace", false, "dump scheduling decisions")
+	shrink := fs.Bool("shrink", false, "minimise the first violation and print it")
 	fs.Parse(args)
 	engine.TraceAll = *tr
 	bad := 0
@@ -59,6 +61,16 @@ func cmdRun(args []string) {
 		if r.Viol != nil {
 			fmt.Println("VIOLATION:", r.Viol.Error())
 			bad++
+			if *shrink {
+				small := engine.Shrink(r.Replay(*prop), 20*time.Second)
+				b, _ := json.Marshal(small.Plan)
+				fmt.Printf("SHRUNK cfg=%+v\nplan=%s\ntape=%v\n", small.Config, b, small.Tape)
+				for _, l := range small.Log {
+					fmt.Println("  ", l)
+				}
+				small.Write("/tmp/shrunk.json")
+				break
+			}
 		}
 	}
 	fmt.Printf("ran %d, bad %d\n", *n, bad)
